@@ -26,6 +26,10 @@ def rand_text(r, lo=1, hi=6):
 
 
 def rand_ws(r):
+    if r.chance(1, 6):
+        # indentation-style runs around the lengths at which an implementation might switch representation
+        n = r.choice([63, 64, 65, 200])
+        return "\n" + r.choice([" ", "\t"]) * (n - 1)
     return "".join(r.choice([" ", "\n", "\t", "\r"]) for _ in range(r.range(1, 3)))
 
 
@@ -324,6 +328,19 @@ def xml_escape(s, attr=False):
     return s
 
 
+RUN_LENGTHS = [1, 63, 64, 65, 200, 5000]
+
+
+def run_length(r):
+    return r.choice(RUN_LENGTHS)
+
+
+def ws_run(r):
+    """indentation-style white space: a line end followed by blanks (or tabs), total length at one of the thresholds"""
+    n = run_length(r)
+    return "\n" + r.choice([" ", " ", "\t"]) * (n - 1) if n > 1 else r.choice([" ", "\n"])
+
+
 def gen_doc_tree(r, depth, budget):
     """returns xml text of element content"""
     out = []
@@ -342,16 +359,21 @@ def gen_doc_tree(r, depth, budget):
                 attrs += ' k="%s"' % xml_escape(r.choice(["u", "v", "w", "é"]), True)
             if r.chance(1, 6):
                 attrs += ' xmlns:q="urn:q" q:z="1"'
+            if r.chance(1, 12):
+                attrs += ' long="%s"' % ("v" * run_length(r))
             inner = gen_doc_tree(r, depth - 1, budget) if depth > 0 and r.chance(3, 4) else ""
             out.append("<%s%s>%s</%s>" % (name, attrs, inner, name) if inner or r.chance(1, 2) else "<%s%s/>" % (name, attrs))
         elif k == "t":
-            out.append(xml_escape(r.choice(WORDS)))
+            w = r.choice(WORDS)
+            if r.chance(1, 8):
+                w = (w + "-") * (run_length(r) // (len(w) + 1) + 1)      # a long text run
+            out.append(xml_escape(w))
         elif k == "c":
-            out.append("<!--%s-->" % r.choice(["note", " c ", "x y"]))
+            out.append("<!--%s-->" % (r.choice(["note", " c ", "x y"]) if not r.chance(1, 8) else "c" * run_length(r)))
         elif k == "p":
             out.append("<?%s %s?>" % (r.choice(["pi", "tgt"]), r.choice(["d", "a b", ""])))
         else:
-            out.append(r.choice(["\n", "  ", "\n  \t"]))
+            out.append(r.choice(["\n", "  ", "\n  \t", ws_run(r), ws_run(r)]))
     return "".join(out)
 
 
@@ -407,20 +429,71 @@ PROBES = [
      # DTD-declared unparsed (NDATA) entities, by literal name and through ENTITY-typed attributes
      '<ue ue1="{unparsed-entity-uri(\'pic1\')}" ue2="{unparsed-entity-uri(\'pic2\')}" ue0="{unparsed-entity-uri(\'nope\')}" uet="{unparsed-entity-uri(\'txt\')}">'
      '<xsl:for-each select="//*[@img]"><e n="{@img}" u="{unparsed-entity-uri(@img)}"/></xsl:for-each></ue>', ""),
+    ("doc-level",
+     # children of the root node: prolog / epilog comments and PIs around the document element, forward and reverse axes
+     '<dl l="{name(/node()[last()])}|{/node()[last()]}" c="{count(/node())}" fs="{count(/*/following-sibling::node())}" '
+     'ps="{count(/*/preceding-sibling::node())}" fl="{name(/*/following-sibling::node()[last()])}|{/*/following-sibling::node()[last()]}" '
+     'pc="{count(/node()[last()]/preceding-sibling::node())}" pp="{count(/node()[last()]/preceding::node())}" '
+     'fo="{count((//*)[last()]/following::node())}" lc="{count(/comment())}:{count(/processing-instruction())}">'
+     # xsl:number level="any" walks backwards through the document with getLastChild()/getPreviousSibling()
+     '<xsl:for-each select="/comment() | /processing-instruction() | /* | (//*)[last()] | (//comment())[last()]">'
+     '<k t="{name()}"><xsl:number level="any" count="comment()|processing-instruction()|*"/>:<xsl:number level="any" count="node()"/>:'
+     '<xsl:number level="any" count="comment()" from="/"/></k></xsl:for-each></dl>', ""),
+    ("ws-count",
+     # white-space-only text nodes, as xsl:strip-space / xsl:preserve-space leave them, with their lengths
+     '<wc><xsl:for-each select="//*"><n t="{name()}" c="{count(text())}" w="{count(text()[not(normalize-space())])}" '
+     'l="{string-length(text()[not(normalize-space())][1])}" s="{string-length(.)}"/></xsl:for-each>'
+     '<a l="{string-length((//@long)[1])}" c="{string-length((//comment())[1])}"/></wc>', ""),
     ("id-lang",
      '<il><xsl:for-each select="//*[lang(\'en\')]"><n t="{name()}"/></xsl:for-each></il>', ""),
 ]
 
-OUTPUTS = [
-    ("xml", ""),
-    ("xml", '<xsl:output method="xml" encoding="ISO-8859-1"/>'),
-    ("xml", '<xsl:output method="xml" encoding="US-ASCII" omit-xml-declaration="no"/>'),
-    ("xml", '<xsl:output method="xml" cdata-section-elements="t m"/>'),
-    ("xml16", '<xsl:output method="xml" encoding="UTF-16"/>'),
-    ("bytes", '<xsl:output method="xml" indent="yes"/>'),
-    ("bytes", '<xsl:output method="html"/>'),
-    ("bytes", '<xsl:output method="text"/>'),
-]
+def gen_output(r):
+    """a random xsl:output declaration over every attribute of XSLT 1.0 section 16.
+    returns (mode, declaration): mode xml = result may also be compared as a tree; xml16 = UTF-16; bytes = raw bytes only
+    (indent adds white space; html / text are not XML; a DOCTYPE with a system identifier cannot be re-parsed offline)"""
+    if r.chance(1, 6):
+        return "xml", ""
+    method = r.weighted([("xml", 7), (None, 2), ("html", 2), ("text", 1)])
+    attrs = []
+    mode = "xml"
+    if method is not None:
+        attrs.append('method="%s"' % method)
+    if method in ("html", "text"):
+        mode = "bytes"
+    enc = r.weighted([(None, 4), ("UTF-8", 1), ("ISO-8859-1", 2), ("US-ASCII", 2), ("UTF-16", 2 if method != "text" else 0)])
+    if enc:
+        attrs.append('encoding="%s"' % enc)
+        if enc == "UTF-16":
+            mode = "xml16" if mode == "xml" else "bytes16"
+    if method != "text":
+        if r.chance(1, 2):
+            attrs.append('cdata-section-elements="%s"' % r.choice(["cd", "cd t", "t m cd n", "cd e"]))
+        if r.chance(1, 4):
+            attrs.append('indent="%s"' % r.choice(["yes", "no"]))
+            if attrs[-1] == 'indent="yes"':
+                mode = "bytes" if mode != "xml16" else "bytes16"
+        if r.chance(1, 4):
+            attrs.append('omit-xml-declaration="%s"' % r.choice(["yes", "no"]))
+            if attrs[-1].endswith('"yes"') and enc in ("UTF-16", "ISO-8859-1"):
+                attrs.pop()         # the result could not be read back without its declaration
+        if r.chance(1, 5):
+            attrs.append('standalone="%s"' % r.choice(["yes", "no"]))
+        if r.chance(1, 5):
+            attrs.append('doctype-public="-//C05//DTD out//EN"')
+            attrs.append('doctype-system="out.dtd"')
+            mode = "bytes" if mode in ("xml", "bytes") else "bytes16"
+        elif r.chance(1, 8):
+            attrs.append('doctype-system="out.dtd"')
+            mode = "bytes" if mode in ("xml", "bytes") else "bytes16"
+        if r.chance(1, 6):
+            attrs.append('media-type="%s"' % r.choice(["text/xml", "application/xml", "text/html"]))
+        if r.chance(1, 8) and method in ("xml", None):
+            attrs.append('version="1.0"')
+    else:
+        if r.chance(1, 3):
+            attrs.append('media-type="text/plain"')
+    return mode, "<xsl:output %s/>" % " ".join(r.shuffle(attrs)) if attrs else ""
 
 
 PI_VARIANTS = ["base", "href-first", "single-quotes", "spaces", "extras", "extras-href-first", "text-xml", "application-xml",
@@ -522,8 +595,9 @@ def gen_case(r, i, absdir):
                         ("text-xml", 1), ("application-xml", 1), ("two-xsl", 2), ("after-misc", 2), ("nl-sep", 1), ("css-first", 1),
                         ("title-keyword", 1)])
     pi = stylesheet_pi(pivar, r, absdir)
-    xml = prolog + doctype + misc + pi + "<r%s>%s</r>" % (rootattrs, body) + r.choice(["", "\n", "\n<!--after-->"])
-    mode, outdecl = r.choice(OUTPUTS)
+    xml = prolog + doctype + misc + pi + "<r%s>%s</r>" % (rootattrs, body) + r.choice(["", "\n", "\n<!--after-->", "\n<!--after--><?end pi?>\n", "<?end pi?><!--last-->"])
+    mode, outdecl = gen_output(r)
+    utf16 = mode in ("xml16", "bytes16")
     nprobes = r.range(1, 4) if cls != "big" else r.range(3, 6)
     probes = r.shuffle(PROBES)[:nprobes]
     byname = dict((p[0], p) for p in PROBES)
@@ -552,13 +626,18 @@ def gen_case(r, i, absdir):
         probes = [p for p in probes if p[0] != "copy"]
     doe_len = r.choice([513, 600, 1025, 3000, 8192, r.range(513, 8192)])
     probes = [(p[0], p[1], p[2].replace("@LEN@", str(doe_len)).replace("@PIECE@", r.choice(["ab", "xy ", "\u00e9\u4e2d"]))) for p in probes]
-    if mode == "bytes":
-        # html/text/indent results are compared as raw bytes across tree implementations: keep attribute order out of them
+    if mode in ("bytes", "bytes16"):
+        # html/text/indent/doctype results are compared as raw bytes across tree implementations: keep attribute order out of them
         probes = [p for p in probes if p[0] != "copy"] or [PROBES[0]]
+    if mode == "bytes16":
+        mode, notree = "xml16", True
     decls = "".join(p[2] for p in probes)
     if cls == "strip" or (cls == "dtd-rich" and r.chance(1, 2)):
         decls += '<xsl:strip-space elements="*"/><xsl:preserve-space elements="b"/>'
-    inner = "".join(p[1] for p in probes)
+    # every result has character data that needs escaping inside an element that cdata-section-elements may name, so that
+    # the lexical form chosen by xsl:output (CDATA section vs escaped text) is visible in the bytes of every stylesheet form
+    inner = ('<cd>one &lt; two &amp; <xsl:value-of select="(//text()[normalize-space()])[1]"/>]]&gt;</cd>' +
+             "".join(p[1] for p in probes))
     params = None
     if r.chance(1, 3) and cls != "dtd-id":
         # top-level parameters set through XalanTransformer::setStylesheetParam / XalanSetStylesheetParam / Xalan -p
